@@ -153,6 +153,15 @@ theorem step_inv (s : Sys) (stp : Step) (h : Inv s) : Inv (step s stp) := by
           simp [hto]
     · simp only [ne_eq, hown, not_false_eq_true, if_true]
       exact h'
+  | openFail =>
+    simp only [step, Mrsw.beginRead]
+    by_cases hown : s.m.owner = ""
+    · simp only [hown, ne_eq, not_true_eq_false, if_false]
+      have hn : ¬ (s.m.numReaders + 1 - 1 < 0) := by rw [hc]; omega
+      simp only [Mrsw.endRead, hn, if_false, note, reduceCtorEq]
+      refine ⟨by simp only [hc]; omega, by simp only [hown]; exact ho |> fun h => by simpa [hown] using h, h1, hx, hst, hp⟩
+    · simp only [ne_eq, hown, not_false_eq_true, if_true]
+      exact h'
   | close i =>
     simp only [step]
     cases hg : s.streams[i]? with
